@@ -44,12 +44,16 @@ Qed.
 Theorem gen_pc_n_counts (l : list X) : (2 <= length l)%nat ->
   gen_pc_n_Q (map qn (mults eqd l)) == qn (pc_num eqd l) / qn (pc_den l).
 Proof.
+  (* the sums are brought to closed form, the rest is `field`: algebraically equivalent ways of writing the quotient still check *)
   intros L. unfold gen_pc_n_Q. cbv zeta.
-  rewrite sumQf_id, sumQf_ff2, mults_sum. unfold pc_num, pc_den.
+  rewrite ?sumQf_id, ?sumQf_ff2, ?mults_sum. unfold pc_num, pc_den.
   rewrite (qn_mult (length l)).
   assert (E: qn (length l - 1) == qn (length l) - (1 # 1)).
   { replace (length l) with ((length l - 1) + 1)%nat at 2 by lia. rewrite qn_plus. unfold qn at 3. simpl. ring. }
-  rewrite E. reflexivity.
+  rewrite E.
+  assert (G : 1 < qn (length l)) by (unfold qn, Qlt; simpl; lia).
+  set (n := qn (length l)) in *. set (s := qn (list_sum _)).
+  field; repeat split; intros H; nra.
 Qed.
 
 Theorem gen_pc_n_defined_iff (l : list X) : (2 <= length l)%nat -> gen_pc_n_defined (map qn (mults eqd l)) = true.
